@@ -242,7 +242,10 @@ pub fn structural_oracle(case: &Case, text: &str) -> Result<Vec<PromFamily>, Fai
 pub fn case_render(bytes: &[u8], _s: &[u8], ctx: &mut Ctx) -> Result<(), Fail> {
     let mut src = Source::new(bytes);
     let case = decode(&mut src);
-    ctx.case(&case);
+    // a quarter of the cases describe late: samples first, a render while nothing is described, then the
+    // descriptions (with their units), then the renders below (drawn last: earlier replay files decode as before)
+    let late = src.below(4) == 3;
+    ctx.case(&(&case, late));
     let hostile = |s: &str| s.contains('"') || s.contains('\\') || s.contains('\n');
     let any_hostile = case.globals.iter().any(|(k, v)| hostile(k) || hostile(v)) || case.metrics.iter().any(|m| hostile(&m.name) || m.labels.iter().any(|(k, v)| hostile(k) || hostile(v)) || m.desc.as_ref().map(|d| hostile(&d.0)).unwrap_or(false));
     if any_hostile {
@@ -252,13 +255,18 @@ pub fn case_render(bytes: &[u8], _s: &[u8], ctx: &mut Ctx) -> Result<(), Fail> {
         ctx.nontrivial("unit-suffix-with-non-count-unit");
     }
     let rec = build(&case);
-    for m in &case.metrics {
+    let describe = |m: &MetricSpec| {
         if let Some((d, u)) = &m.desc {
             match m.kind {
                 'c' => rec.describe_counter(m.name.clone().into(), *u, d.clone().into()),
                 'g' => rec.describe_gauge(m.name.clone().into(), *u, d.clone().into()),
                 _ => rec.describe_histogram(m.name.clone().into(), *u, d.clone().into()),
             }
+        }
+    };
+    for m in &case.metrics {
+        if !late {
+            describe(m);
         }
         let key = key_of(m);
         for i in 0..m.nsamples {
@@ -270,6 +278,20 @@ pub fn case_render(bytes: &[u8], _s: &[u8], ctx: &mut Ctx) -> Result<(), Fail> {
         }
     }
     let handle = rec.handle();
+    if late {
+        if case.metrics.iter().any(|m| m.desc.is_some() && m.nsamples > 0) {
+            ctx.nontrivial("described-after-a-render-of-the-same-recorder");
+        }
+        let mut undescribed = case.clone();
+        for m in undescribed.metrics.iter_mut() {
+            m.desc = None;
+        }
+        let text0 = handle.render();
+        structural_oracle(&undescribed, &text0)?;
+        for m in &case.metrics {
+            describe(m);
+        }
+    }
     let text = handle.render();
     let fams = structural_oracle(&case, &text)?;
     // HELP text round-trips for described families (escapes complete)
